@@ -671,7 +671,12 @@ def replay_file(path):
             for st in rec.get("steps", []):
                 if st.get("a") != "Reset":
                     f.write(json.dumps(st) + "\n")
-            f.write(json.dumps(rec["event"]) + "\n")
+            if "E" not in rec["event"] and rec["event"].get("a") not in ("Obs", "Iter", "IterVsSweep", "Len"):
+                f.write(json.dumps(rec["event"]) + "\n")
+            else:
+                # the disagreement was found on an observation line (the contents / observers after these calls):
+                # the calls are re-executed and re-validated; the observation itself is in the file
+                print("note: observation-relative counterexample; re-validating the calls that lead to it")
         tf = os.path.join(d, "trace.ndjson")
         p = subprocess.run([binpath, "rerun", "--type", rec["ptype"], "--events", evf, "--trace", tf], capture_output=True, text=True)
         if p.returncode == 3:
